@@ -193,8 +193,14 @@ func (r *FeatureLocal) addPendingApproval(msg *api.Message) {
 		verifApprovalTimer(0, ski, *msg.RequestHeader.MsgCounter)
 		defer verifApprovalTimer(1, ski, *msg.RequestHeader.MsgCounter)
 		r.muxResponseCB.Lock()
+		_, pending := r.pendingWriteApprovals[ski][*msg.RequestHeader.MsgCounter]
 		delete(r.pendingWriteApprovals[ski], *msg.RequestHeader.MsgCounter)
 		r.muxResponseCB.Unlock()
+
+		// the approval was cleaned up (device disconnected) while the timer fired
+		if !pending {
+			return
+		}
 
 		err := model.NewErrorTypeFromString("write not approved in time by application")
 		_ = msg.FeatureRemote.Device().Sender().ResultError(msg.RequestHeader, r.Address(), err)
@@ -270,8 +276,16 @@ func (r *FeatureLocal) SetWriteApprovalTimeout(duration time.Duration) {
 }
 
 func (r *FeatureLocal) CleanWriteApprovalCaches(ski string) {
+	r.muxWriteReceived.Lock()
+	defer r.muxWriteReceived.Unlock()
+
 	r.muxResponseCB.Lock()
 	defer r.muxResponseCB.Unlock()
+
+	// the pending writes won't be answered anymore
+	for _, timer := range r.pendingWriteApprovals[ski] {
+		timer.Stop()
+	}
 
 	delete(r.pendingWriteApprovals, ski)
 	delete(r.writeApprovalReceived, ski)
